@@ -15,10 +15,20 @@ PROPERTY = "C03"
 LEVEL = "exploration"
 K_TOL = 1024.0       # |dt| > P   (measured max over 173k thorough cases: 74 elliptic <= 100 P, 332 hyperbolic)
 K_SMALL = 128.0      # |dt| <= P  (measured max over 173k thorough cases: 25)
+K_BENIGN = 8.0       # nearly circular (e <= 0.3) and |dt| <= 2 P: a backward-stable step is O(1) here (measured max 2.0)
 
 
-def k_of(dtP):
-    return K_SMALL if abs(dtP) <= 1.0 else K_TOL
+def k_of(c):
+    """Slack K of the case (dict with hyp, e_ell, dtP) or of a bare dt/P."""
+    if isinstance(c, dict):
+        dtP = abs(c["dtP"])
+        if c.get("w512"):
+            return K_BENIGN       # outside its finding region WHFast512 is converged: measured max 0.13
+        if not c["hyp"] and c["e_ell"] <= 0.3 and dtP <= 2.0:
+            return K_BENIGN
+    else:
+        dtP = abs(c)
+    return K_SMALL if dtP <= 1.0 else K_TOL
 
 
 EPS = 2.0 ** -52
@@ -85,7 +95,7 @@ VARIANTS = ["avx512"]
 # generators
 
 ecc_ell = st.one_of(S.floats(0.0, 0.999999),
-                    st.sampled_from([0.0, 1e-8, 1e-3, 0.5, 0.9, 0.99, 0.999, 1 - 1e-6]),
+                    st.sampled_from([0.0, 1e-8, 1e-3, 0.1, 0.2, 0.3, 0.5, 0.9, 0.99, 0.999, 1 - 1e-6]),
                     S.logfloats(1e-6, 1.0).map(lambda x: 1.0 - x))
 ecc_hyp = st.one_of(S.logfloats(1e-6, 49.0).map(lambda x: 1.0 + x),
                     st.sampled_from([1 + 1e-6, 1.001, 1.1, 1.5, 2.0, 10.0, 50.0]))
@@ -95,6 +105,7 @@ phase = st.one_of(S.floats(-1.0, 1.0), st.sampled_from([0.0, 1.0, -1.0, 0.5]),
                   S.logfloats(1e-6, 0.1).flatmap(lambda x: st.sampled_from([1 - x, x - 1])))      # apocentre / asymptote
 dt_over_P = st.tuples(st.sampled_from([1.0, 1.0, -1.0]),
                       st.one_of(S.logfloats(1e-8, 1e3), S.logfloats(1.0, 1e3), S.logfloats(1e-2, 10.0),
+                                S.logfloats(0.05, 2.0),
                                 st.sampled_from([0.5, 1.0, 2.0, 1e-8, 1e3]))).map(lambda t: t[0] * t[1])
 orbit = st.fixed_dictionaries({
     "hyp": st.sampled_from([False, False, True]),
@@ -296,7 +307,7 @@ def judge(ctx, c, bodies, what, extra=None):
     """Accuracy assertion shared by all entry points.  bodies: list of (name, got6, refr, refv, tpos, tvel) with
     tpos/tvel the allowed error norms (already containing K).  Returns "asserted" | "loose" | "excluded"."""
     from ..oracles import c03_kepler_mp as KM
-    K_TOL = k_of(c["dtP"])
+    K_TOL = k_of(c)
     worst = 0.0
     bad = None
     loose = False
@@ -377,7 +388,7 @@ def run_direct(c, ctx):
     refr, refv, dpos, dvel = KM.propagate_cond(r0, v0, mu, dt)
     xs = max(math.sqrt(sum(x * x for x in r0)), KM.norm(refr))
     vs = max(math.sqrt(sum(x * x for x in v0)), KM.norm(refv))
-    K = k_of(c["dtP"])
+    K = k_of(c)
     res = judge(ctx, c, [("state", val, refr, refv, K * (dpos + EPS * xs), K * (dvel + EPS * vs))],
                 "reb_whfast_kepler_solver", extra=dict(r0=r0, v0=v0, mu=mu, dt=dt, e=e))
     if nt and res == "asserted":
@@ -453,8 +464,9 @@ def step_case(schemes, g_choices, w512=False):
         # lane: which of the 8 vector lanes carries the planet under test (the others carry massless fillers on
         # circular orbits); npl=1: a single planet, the other lanes are padded by the integrator itself
         extra["dtq"] = st.one_of(S.logfloats(1e-6, C512), S.logfloats(1e-3, C512), S.logfloats(C512, 1e2),
-                                 st.sampled_from([0.01, 0.1, 0.19]))
-        extra["lane"] = st.integers(0, 7)
+                                 S.logfloats(0.05, C512), S.logfloats(0.05, C512),
+                                 st.sampled_from([0.01, 0.1, 0.15, 0.19]))
+        extra["lane"] = st.sampled_from(list(range(8)))
         extra["npl"] = st.sampled_from([8, 8, 8, 1])
     return st.fixed_dictionaries({
         "orbit": orbit, **extra,
@@ -724,7 +736,7 @@ def run_step(c, ctx):
         com_v = [(mm0 * mpf(star[3 + k]) + mm1 * mpf(plan[3 + k])) / mM for k in range(3)]
         mdt = mpf(dt)
         n3 = lambda v: math.sqrt(sum(float(x) ** 2 for x in v))
-        K_TOL = k_of(o["dtP"])            # the Kepler sub-steps of a DKD scheme are shorter still: same K (not smaller)
+        K_TOL = k_of(o)            # the Kepler sub-steps of a DKD scheme are shorter still: same K (not smaller)
         if nsub == 1:
             refr, refv, dpos, dvel = KM.propagate_cond(rel_r, rel_v, mum, mdt)
             xs = max(n3(rel_r), n3(refr))
@@ -896,7 +908,7 @@ def run_multi(c, ctx):
         # documented structure: safe_mode=1: (D/2 K D/2) per step; safe_mode=0: D/2 K (D K)^(m-1) D/2
         # (with variational particles and keep_unsynchronized=0 WHFast synchronizes after every step even with
         # safe_mode=0; both sequences are legitimate implementations, so safe_mode=0 is allowed the larger allowance)
-        K = k_of(o["dtP"])
+        K = k_of(o)
         tpos, tvel = chain_allowance(KM, rel_r, rel_v, mum, [mdt / 2, mdt / 2] * m, K)
         if sm == 0:
             tp2, tv2 = chain_allowance(KM, rel_r, rel_v, mum, [mdt / 2] + [mdt] * (m - 1) + [mdt / 2], K)
